@@ -1,11 +1,14 @@
 mod gen;
 mod hooks;
 mod kindv;
+mod navv;
+mod nestv;
 mod objv;
 mod orderv;
 mod parsev;
 mod printv;
 mod proj;
+mod sweepv;
 mod unordv;
 mod util;
 
@@ -25,8 +28,11 @@ fn main() {
 			let mut ost = objv::ObjState::new();
 			for path in &args.pos {
 				for_each_record(path, |rec| match rec["k"].as_str() {
+					Some("parse_bytes") => parsev::replay_bytes(&mut rep, &rec),
 					Some("parse") => parsev::replay_parse(&mut rep, &rec),
 					Some("obj") => objv::replay_obj(&mut rep, &mut ost, &rec),
+					Some("nest") => nestv::replay_nest(&mut rep, &rec),
+					Some("conv") => navv::replay_conv(&mut rep, &rec),
 					Some("print") => printv::replay_print(&mut rep, &rec),
 					Some("uneq") => unordv::replay_uneq(&mut rep, &rec),
 					Some("kind_set") => kindv::replay_set(&mut rep, &rec),
@@ -42,6 +48,9 @@ fn main() {
 			rep.finish(args.get("out"));
 		}
 		"record-obj" => objv::record(&args),
+		"nest-child" => nestv::child(),
+		"sweep" => sweepv::record(&args),
+		"record-parse" => parsev::record(&args),
 		"record-order" => orderv::record(&args),
 		"record-print" => printv::record(&args),
 		"record-unordered" => unordv::record(&args),
